@@ -301,3 +301,66 @@ Proof.
   intros s H. apply take_none_inv in H. unfold u32, two32 in H.
   pose proof (N.mod_le (len s) 4294967296). lia.
 Qed.
+
+(* ------------------------------------------------------------------ *)
+(* what one subscriber received: gap-free per message                   *)
+(* ------------------------------------------------------------------ *)
+
+Lemma prefixb_iff : forall a l, prefixb a l = true <-> exists post, l = a ++ post.
+Proof.
+  induction a as [|x a IH]; intros l; cbn [prefixb].
+  - split; [intros _; exists l; reflexivity|reflexivity].
+  - destruct l as [|y l].
+    + split; [discriminate|]. intros [post E]. discriminate.
+    + rewrite andb_true_iff, frame_eqb_eq, IH. split.
+      * intros [-> [post ->]]. exists post. reflexivity.
+      * intros [post E]. inversion E; subst. split; [reflexivity|exists post; reflexivity].
+Qed.
+
+Lemma segmentb_iff : forall a l, segmentb a l = true <-> exists pre post, l = pre ++ a ++ post.
+Proof.
+  intros a. induction l as [|y l IH]; cbn [segmentb]; rewrite orb_true_iff, prefixb_iff.
+  - split.
+    + intros [[post E]|H]; [exists [], post; exact E|discriminate].
+    + intros (pre & post & E). left. destruct pre; [exists post; exact E|discriminate].
+  - rewrite IH. split.
+    + intros [[post E]|(pre & post & E)].
+      * exists [], post. exact E.
+      * exists (y :: pre), post. rewrite E. reflexivity.
+    + intros (pre & post & E). destruct pre as [|z pre].
+      * left. exists post. exact E.
+      * right. inversion E; subst. exists pre, post. reflexivity.
+Qed.
+
+Lemma dedup_keys_in : forall ks k, In k (dedup_keys ks) <-> In k ks.
+Proof.
+  induction ks as [|k0 t IH]; intros k; cbn [dedup_keys]; [tauto|].
+  destruct (existsb (key_eqb k0) t) eqn:E.
+  - rewrite IH. split; [intros H; right; exact H|]. intros [<-|H]; [|exact H].
+    apply existsb_exists in E. destruct E as (k' & Hin & Hk). apply key_eqb_eq in Hk. subst. exact Hin.
+  - cbn [In]. rewrite IH. tauto.
+Qed.
+
+Definition subscriber_spec (ref got : list frame) : Prop :=
+  forall k, In k (map fkey got) ->
+    exists pre post, filter (keyb k) ref = pre ++ filter (keyb k) got ++ post.
+
+Lemma c19_subscriber_ok_iff : forall ref got,
+  c19_subscriber_ok ref got = true <-> subscriber_spec ref got.
+Proof.
+  intros ref got. unfold c19_subscriber_ok, subscriber_spec. rewrite forallb_forall. split.
+  - intros H k Hk. apply segmentb_iff. apply H. apply dedup_keys_in. exact Hk.
+  - intros H k Hk. apply segmentb_iff. apply H. apply dedup_keys_in. exact Hk.
+Qed.
+
+(* a subscriber that received a contiguous part of the stream (joined late,
+   cut off early, or both) satisfies it; so does the complete stream *)
+Lemma filter_segment : forall (p : frame -> bool) pre got post,
+  filter p (pre ++ got ++ post) = filter p pre ++ filter p got ++ filter p post.
+Proof. intros. rewrite !filter_app. reflexivity. Qed.
+
+Lemma contiguous_part_ok : forall pre got post, subscriber_spec (pre ++ got ++ post) got.
+Proof.
+  intros pre got post k _. exists (filter (keyb k) pre), (filter (keyb k) post).
+  apply filter_segment.
+Qed.
